@@ -61,23 +61,34 @@ pub async fn do_cname_dname(
                     continue;
                 }
                 if let Some(ce) = g.closest_encloser() {
-                    let (check, state, ede) = check_not_exists_for_wildcard(
-                        &name,
-                        authorities,
-                        &g.signer_name(),
-                        &ce,
-                        nsec3_cache,
-                        config,
-                    )
-                    .await;
-                    if check {
-                        maybe_secure = map_maybe_secure(state, maybe_secure);
-                    // Just continue.
-                    } else {
-                        // totest, CNAME from wildcard with bad non-existance
-                        // proof
-                        // Report failure
-                        return (name, ValidationState::Bogus, ede);
+                    // It is possible that the request was for the actual
+                    // wildcard. In that case we do not need to prove that
+                    // name does not exist.
+                    let is_star_name = match star_closest_encloser(&ce) {
+                        Ok(star_name) => name == star_name,
+                        Err(_) => false,
+                    };
+                    if !is_star_name {
+                        let (check, state, ede) =
+                            check_not_exists_for_wildcard(
+                                &name,
+                                authorities,
+                                &g.signer_name(),
+                                &ce,
+                                nsec3_cache,
+                                config,
+                            )
+                            .await;
+                        if check {
+                            maybe_secure =
+                                map_maybe_secure(state, maybe_secure);
+                        // Just continue.
+                        } else {
+                            // totest, CNAME from wildcard with bad
+                            // non-existance proof
+                            // Report failure
+                            return (name, ValidationState::Bogus, ede);
+                        }
                     }
                 }
                 name = cname.cname().to_name();
